@@ -85,6 +85,11 @@ func waitAllUpdatedAndReady(deployment *apps.Deployment) error {
 	if createdReplicas != updatedReplicas {
 		return fmt.Errorf("promote error: all replicas should be upgraded")
 	}
+	// "created == updated" also holds vacuously while no pod exists at all (e.g. a Recreate Deployment
+	// between removing the old pods and creating the new ones): the desired number must be reached as well
+	if deployment.Spec.Replicas != nil && updatedReplicas < *deployment.Spec.Replicas {
+		return fmt.Errorf("promote error: all replicas should be upgraded")
+	}
 
 	availableReplicas := deployment.Status.AvailableReplicas
 	allowedUnavailable := util.DeploymentMaxUnavailable(deployment)
